@@ -597,6 +597,32 @@ func (u *Unit) evalCall(e *SExpr, env *Env) Val {
 		return Val{T: u.termOf(x)}
 	case "ret", "ret0", "ret1", "ret2":
 		return u.evalRet(e, env)
+	case "asstring", "aserror":
+		// the string / error an interface value holds (the inverse of boxing)
+		x := u.eval(e.Args[0], env)
+		if x.T.Sort != "Iface" {
+			u.specFail("%s needs an interface value", e.Name)
+		}
+		if e.Name == "aserror" {
+			return Val{T: x.T, Typ: types.Universe.Lookup("error").Type()}
+		}
+		f, _ := u.ifaceTag(types.Typ[types.String], "Bytes")
+		return Val{T: app("Bytes", "un"+f, x.T), Typ: types.Typ[types.String]}
+	case "visited":
+		// visited(k): key k has already been produced by the (single) map range in progress
+		k := u.eval(e.Args[0], env)
+		var name string
+		n := 0
+		for h := range env.st.heaps {
+			if strings.HasPrefix(h, "RV:") {
+				name = h
+				n++
+			}
+		}
+		if n != 1 {
+			u.specFail("visited(): %d map iterations in scope (need exactly one)", n)
+		}
+		return Val{T: sel(env.st.heaps[name], u.termOf(k))}
 	case "store":
 		a, k, v := u.eval(e.Args[0], env), u.eval(e.Args[1], env), u.eval(e.Args[2], env)
 		if !strings.HasPrefix(a.T.Sort, "(Array ") {
